@@ -49,6 +49,8 @@ RtVariants(c) ==
     {[cls |-> c, kind |-> "empty", which |-> "", n |-> 0]}
     \cup {[cls |-> c, kind |-> "attr", which |-> Attrs(c)[k].member, n |-> 1] : k \in 1..Len(Attrs(c))}
     \cup {[cls |-> c, kind |-> "allattrs", which |-> "", n |-> Len(Attrs(c))]}
+    \* every optional attribute present with the empty string as value (present-but-empty is not absent)
+    \cup {[cls |-> c, kind |-> "optattrs_empty", which |-> "", n |-> Len(Attrs(c))]}
     \cup {[cls |-> c, kind |-> "child", which |-> Children(c)[k].member, n |-> n] :
              k \in {j \in 1..Len(Children(c)) : Children(c)[j].cls \in Classes}, n \in 1..3}
     \cup {[cls |-> c, kind |-> "allchildren", which |-> "", n |-> 1]}
